@@ -509,3 +509,7 @@ def replay(run, data) -> None:
     one_case(run, run.seed, int(data['case']['id']))
     run.case('pad', True)
     run.case('pad2', True)
+
+
+# (kept at the end of the file so that the text above stays the description the check was first built to)
+RULE += ' ' + 'Later additions: every binary operator over every pair of operand kinds (mutable, frozen, tuple, scalar) in both orders plus the unary operators and value-returning methods, results edited in place; copy options (side_mapping law, keep_vis=False, other map), the map every part of a copy belongs to, copies of worldspawn, cross-map Side / EntityGroup copies.'
